@@ -11,6 +11,11 @@
                                variants with the F29 repair), for every model variant that
                                retracts failed assumptions (fix F7)
      compat_refl               outright, every registry and id
+     compat_trans_partial      is_compatible is transitive on the cycle-free fragment (`trans_domain`:
+                               ids topologically ordered, no duplicate type entry, no Cycle/Variable
+                               reachable), for every variant with the F7 and F29 repairs and fuel
+                               above the id sums: check_rel computes exactly a reference relation
+                               (TransCheck.check_exact) that is transitive (TransProofs.R_trans)
      overlap_complete_partial  a `false` of types_overlap proves disjointness on the first-order
                                cycle-free fragment (ints, bins, refs, resources, tuples, unions)
      register_type/tuple_monotone, inhab_monotone   registry monotonicity
@@ -24,15 +29,10 @@
         is_compatible P a b = true -> forall n v, inhab P n [] v a -> inhab P n [] v b
         (KnownF23 = a Cycle of depth >= 2 or an open subterm shared by two binders is reachable;
          proved only where no Cycle is reachable at all — the recursive fragment is missing)
-     compat_trans : is_compatible P a b = true -> is_compatible P b c = true ->
-        is_compatible P a c = true        (not proved; checked on every generated triple: ~31 k per
-        quick run, 0 failures since the F29 repair.  Sizing of `compat_trans_partial` on the
-        cycle-free fragment: a fuel-indexed reference relation `subref` mirroring the ALL-mode arms
-        without assumptions; (1) check_sound generalised from `sub` to any relation closed under
-        the arm rules (the proof in RelProofs.v only uses those rules), (2) the converse
-        `subref => check_rel = true for every assumption set` with totality for fuel > id-sum under
-        `topo`, (3) transitivity of `subref` by induction on a+b+c with the union-left/union-right
-        inversion lemmas; about 450 lines.)
+     compat_trans (general) : is_compatible P a b = true -> is_compatible P b c = true ->
+        is_compatible P a c = true        (proved on the cycle-free fragment: compat_trans_partial
+        below; on the recursive fragment it is checked on every generated triple, ~31 k per quick
+        run, 0 failures since the F29 repair)
      overlap_complete : forall P a b, closedb P a = true -> closedb P b = true ->
         (exists n v, inhab P n [] v a /\ inhab P n [] v b) -> types_overlap P a b = true
         (false as stated: F25 for callable/process; recursive first-order fragment unproved)
@@ -42,7 +42,7 @@
         inhab P' n [] v (compute_complement P o nr)
         (both false on recursive unions: F24; not proved on the cycle-free fragment either —
          validated by the oracle only) *)
-From Quiver Require Import Base Types Rel Sem SemProofs RelProofs OverlapProofs TypesProofs Witness.
+From Quiver Require Import Base Types Rel Sem SemProofs RelProofs OverlapProofs TypesProofs Witness TransCheck TransThm.
 From Coq Require Import Arith.
 Close Scope Z_scope.
 Open Scope nat_scope.
@@ -74,6 +74,25 @@ Proof. vm_compute. repeat split; reflexivity. Qed.
 Theorem C09_compat_refl : forall cfg P fuel a, is_compatible_with cfg (S fuel) P a a = Some true.
 Proof. exact compat_refl_all. Qed.
 Print Assumptions C09_compat_refl.
+
+Theorem C09_compat_trans_partial : forall cfg P fuel a b c,
+  cfg_retract cfg = true -> cfg_partial_name cfg = true ->
+  trans_domain P a = true -> trans_domain P b = true -> trans_domain P c = true ->
+  a + b < fuel -> b + c < fuel -> a + c < fuel ->
+  is_compatible_with cfg fuel P a b = Some true ->
+  is_compatible_with cfg fuel P b c = Some true ->
+  is_compatible_with cfg fuel P a c = Some true.
+Proof. exact compat_trans_cf. Qed.
+Print Assumptions C09_compat_trans_partial.
+
+Definition reg_chain : registry :=
+  mk_reg [mk_tuple None []; mk_tuple (Some name_ok) []] [TInteger; TBinary; TUnion [0; 1]; TReference; TUnion [0; 1; 3]].
+Example C09_compat_trans_nonvacuous :
+  trans_domain reg_chain 0 = true /\ trans_domain reg_chain 2 = true /\ trans_domain reg_chain 4 = true /\
+  is_compatible_with current_cfg 100 reg_chain 0 2 = Some true /\
+  is_compatible_with current_cfg 100 reg_chain 2 4 = Some true /\
+  cfg_retract current_cfg = true /\ cfg_partial_name current_cfg = true.
+Proof. vm_compute. repeat split; reflexivity. Qed.
 
 Theorem C09_overlap_complete_partial : forall cfg P fuel a b r,
   fo_domain P a = true -> fo_domain P b = true ->
